@@ -86,6 +86,15 @@ CHECKS = {
         text='Bounce policy (which failures bounce, grouped by reply, to whom, never for a null sender, never looping) is specified in the observer and in QueueCore (failed = union of disjoint bounce groups); real executions with the real Bounce class over failure histories (whole-message, per-recipient with equal / different / interleaved replies, retry exhaustion, failing bounces, null senders, factory returning None, headers-only, 8-bit bodies) are validated by TLC; content facts are extracted by the driver.',
         design='5/C13', technique='TLA+ QueueCore model (TLC exhaustive, deviation switches) + QueueObs observer: TLC trace validation of real Queue executions explored by stateless DFS over gated collaborators under virtual time',
         note='Relay outcomes come from a contract-conforming scripted relay; redis and object store are doubles; schedules are explored to a depth bound. ' + TB),
+    'C15': dict(
+        level='model_checking',
+        text='The reference store (Storage.tla) is explored by TLC as a state machine (removed stays removed, attempts and '
+             'recipients monotone, operations touch one id). Random operation sequences on DictStorage, DiskStorage (real '
+             'files, real AIO), RedisStorage over a redis double and CloudStorage over an object-store double - with two '
+             'greenlets overlapping on disjoint ids for the yielding backends - are logged as call/return pairs and TLC '
+             'decides whether some linearisation is a behaviour of the reference store.',
+        design='5/C15', technique='TLA+ reference store, TLC linearisability check of recorded call/return traces',
+        note='Substrate doubles for redis and the object store; one delivered-marking round per message (multi-round is C03). ' + TB),
 }
 
 HOOK_COMMITS = []
